@@ -56,19 +56,26 @@ class InlineExecutor(concurrent.futures.ThreadPoolExecutor):
 
 class ProbeMini(M.MiniSSH):
     """MiniSSH that keeps every framed packet separately (so the harness delivers packet by packet) and can
-    frame given payloads right before its own next packet of a given type (hook)."""
+    frame given payloads right before its own next packet of a given type (hook) or right before its own
+    n-th packet (inject_pos)."""
 
     def __init__(self, *a, **k):
         super().__init__(*a, **k)
-        self.pkts = collections.deque()     # (is_probe, wire bytes, seq, type)
+        self.pkts = collections.deque()     # dicts: probe, wire, seq, payload
         self.hook = None                    # (msgtype, [payloads])
-        self.probe_seqs = []
+        self.inject_pos = None              # (n, [payloads]): before our own n-th framed packet (0-based)
+        self.own_count = 0
 
     def _frame(self, payload, **kw):
         if self.hook and payload and payload[0] == self.hook[0]:
             pls, self.hook = self.hook[1], None
             for p in pls:
                 self._frame1(p, True)
+        if self.inject_pos and self.inject_pos[0] == self.own_count:
+            pls, self.inject_pos = self.inject_pos[1], None
+            for p in pls:
+                self._frame1(p, True)
+        self.own_count += 1
         self._frame1(payload, False, **kw)
 
     def _frame1(self, payload, is_probe, **kw):
@@ -76,13 +83,30 @@ class ProbeMini(M.MiniSSH):
         M.MiniSSH._frame(self, payload, **kw)
         wire = bytes(self._out[start:])
         del self._out[start:]
-        if is_probe:
-            self.probe_seqs.append(seq)
-        self.pkts.append((is_probe, wire, seq, payload[0] if payload else None))
+        self.pkts.append({'probe': is_probe, 'wire': wire, 'seq': seq, 'payload': bytes(payload)})
 
     def inject_now(self, payloads):
         for p in payloads:
             self._frame1(bytes(p), True)
+
+    def _dispatch(self, seq, payload):
+        """As MiniSSH._dispatch, but as an observer: MiniSSH's own strict-KEX enforcement on what it
+        RECEIVES is switched off, so that whatever the endpoint under test sends is recorded."""
+        t = payload[0]
+        if t == M.MSG_KEXINIT:
+            self._on_kexinit(seq, payload)
+        elif t == M.MSG_NEWKEYS:
+            self._on_newkeys()
+        elif M.MSG_KEX_FIRST <= t <= M.MSG_KEX_LAST:
+            self._on_kex_message(t, payload)
+        else:
+            if t == M.MSG_DISCONNECT:
+                r = M.Reader(payload, 1)
+                try:
+                    self.peer_disconnect = (r.get_u32(), r.get_string())
+                except M.MiniSSHError:
+                    self.peer_disconnect = (None, b'')
+            self.inbox.append((t, payload))
 
 
 class _Transport(asyncio.Transport):
@@ -169,7 +193,7 @@ _ENV = {}
 
 def env():
     """Per-process fixtures: keys, a reusable server acceptor/factory and prebuilt client options."""
-    if not _ENV:
+    if 'asyncssh' not in _ENV:
         import asyncssh
         from cryptography.hazmat.primitives.asymmetric import ed25519
         _ENV['asyncssh'] = asyncssh
@@ -310,6 +334,9 @@ class Sess:
         self.mini_failed = None
         self.cursor = 0                  # into self.rx for expect()
         self.reactions = []              # per probe group: dict
+        self.steps = []                  # every chunk delivered to the endpoint with what it sent in reaction
+        self._step_mark = 0
+        self.glue = None
         self.step = 'start'
         self.connect_task = self.session_task = None
         self.chan = self.client_session = None
@@ -329,7 +356,7 @@ class Sess:
         conn.connection_made(self.transport)
         self.mini.start()
         v = self.mini.take_output()
-        self.mini.pkts.append((False, v, None, 'version'))
+        self.mini.pkts.append({'probe': False, 'wire': v, 'seq': None, 'payload': None})
 
     def ep_close(self):
         if not self.ep_closed:
@@ -367,48 +394,70 @@ class Sess:
             if p:
                 self.rx.append(canon_msg(p[0], p) + (('seq', rec['seq']),))
 
-    async def settle(self, quiet=3, limit=80):
-        """Run event loop turns until nothing was written/closed for `quiet` consecutive turns."""
+    async def settle(self, limit=200):
+        """Run event loop turns until nothing else is runnable: the loop's ready queue is empty when this
+        task resumes, twice in a row (inline executor completions and task wake-ups all pass through that
+        queue; there are no timers).  Without access to the queue: a fixed number of turns."""
+        loop = asyncio.get_running_loop()
+        ready = getattr(loop, '_ready', None)
+        if ready is None:
+            for _ in range(40):
+                await asyncio.sleep(0)
+            return
         calm = 0
         for _ in range(limit):
-            self.moved = False
             await asyncio.sleep(0)
-            if self.moved:
-                calm = 0
-            else:
+            if len(ready) == 0:
                 calm += 1
-                if calm >= quiet:
+                if calm >= 2:
                     return
+            else:
+                calm = 0
+
+    def _outs_since(self, mark):
+        """(type, arg, seq) of every packet MiniSSH decoded from the endpoint since rx[mark]."""
+        out = []
+        for m in self.rx[mark:]:
+            if m[0] == 'mini_failed':
+                out.append(('mini_failed', m[1], -1))
+                continue
+            seq = [x[1] for x in m if isinstance(x, tuple) and x and x[0] == 'seq'][0]
+            arg = int.from_bytes(m[1], 'big') if m[0] == M.MSG_UNIMPLEMENTED and len(m[1]) == 4 else 0
+            out.append((m[0], arg, seq))
+        return out
 
     async def deliver_one(self):
-        """Deliver MiniSSH's next packet to the endpoint; a probe group is observed as one reaction."""
-        is_probe, wire, seq, t = self.mini.pkts.popleft()
-        if not is_probe:
-            if not self.ep_closed:
-                self.conn.data_received(wire)
-            await self.settle()
-            return
-        group = [(wire, seq, t)]
-        while self.mini.pkts and self.mini.pkts[0][0]:
-            _, w2, s2, t2 = self.mini.pkts.popleft()
-            group.append((w2, s2, t2))
+        """Deliver MiniSSH's next packet(s) to the endpoint as one chunk, let the endpoint run until nothing
+        is runnable, and log the step.  Chunks: one packet; with glue='prev' probes ride in the chunk of the
+        script packet in front of them; with glue='group' consecutive probes form one chunk."""
         self.feed_mini()
+        if len(self.rx) > self._step_mark:          # sent on the application's initiative since the last step
+            self.steps.append({'chunk': [], 'outs': self._outs_since(self._step_mark), 'closed': self.ep_closed})
+            self._step_mark = len(self.rx)
+        q = self.mini.pkts
+        chunk = [q.popleft()]
+        glue = self.glue
+        if glue == 'prev' and not chunk[0]['probe']:
+            while q and q[0]['probe']:
+                chunk.append(q.popleft())
+        elif glue in ('group', 'prev') and chunk[0]['probe']:
+            while q and q[0]['probe']:
+                chunk.append(q.popleft())
+        has_probe = any(c['probe'] for c in chunk)
         mark_rx, mark_ev = len(self.rx), len(self.ev)
-        glued = getattr(self, 'glue', False)
-        if glued:
-            if not self.ep_closed:
-                self.conn.data_received(b''.join(w for w, _, _ in group))
-            await self.settle()
-        else:
-            for w, _, _ in group:
-                if not self.ep_closed:
-                    self.conn.data_received(w)
-                await self.settle()
+        if not self.ep_closed:
+            self.conn.data_received(b''.join(c['wire'] for c in chunk))
+        await self.settle()
         self.feed_mini()
-        self.reactions.append({'step': self.step, 'seqs': [s for _, s, _ in group],
-                               'rx': self.rx[mark_rx:], 'ev': self.ev[mark_ev:], 'mark_rx': mark_rx,
-                               'mark_ev': mark_ev, 'closed': self.ep_closed,
-                               'disconnect': self.mini.peer_disconnect})
+        self.steps.append({'chunk': [{'probe': c['probe'], 'payload': c['payload'], 'seq': c['seq']} for c in chunk],
+                           'outs': self._outs_since(mark_rx), 'closed': self.ep_closed})
+        self._step_mark = len(self.rx)
+        if has_probe:
+            self.reactions.append({'step': self.step, 'seqs': [c['seq'] for c in chunk if c['probe']],
+                                   'rx': self.rx[mark_rx:], 'ev': self.ev[mark_ev:], 'mark_rx': mark_rx,
+                                   'mark_ev': mark_ev, 'closed': self.ep_closed,
+                                   'disconnect': self.mini.peer_disconnect,
+                                   'with_script_packet': any(not c['probe'] for c in chunk)})
 
     async def pump(self):
         """Move everything that can move, one packet at a time, until quiescent."""
@@ -529,6 +578,14 @@ async def script_vs_server(s, phase, probes):
     await s.until(lambda: s.ep_closed, 'disconnect')
 
 
+def _app(fn, step):
+    """An application-side call of the scripted session; an exception ends the script at that step."""
+    try:
+        fn()
+    except Exception as exc:      # noqa
+        raise Stop(step, 'app:' + type(exc).__name__) from None
+
+
 async def script_vs_client(s, phase, probes):
     """MiniSSH is the server; the real endpoint is an asyncssh client."""
     e = env()
@@ -603,7 +660,7 @@ async def script_vs_client(s, phase, probes):
     if res is None:
         raise Stop('session-open', 'failed')
     chan, csess = res
-    chan.write(b'ping1')
+    _app(lambda: chan.write(b'ping1'), 'data1')
     await s.until(lambda: _echoed(s).endswith(b'ping1'), 'data1')
     s.send(M.channel_data(peer_chan, b'ping1'))
     await s.until(lambda: bytes(csess.got).endswith(b'ping1'), 'echo1')
@@ -614,23 +671,25 @@ async def script_vs_client(s, phase, probes):
         m.hook = (hooks[phase], probes)
     m.start_rekey()
     await s.until(lambda: m.kex_count == 2 and not m.kex_in_progress, 'rekey')
-    chan.write(b'ping2')
+    _app(lambda: chan.write(b'ping2'), 'data2')
     await s.until(lambda: _echoed(s).endswith(b'ping2'), 'data2')
     s.send(M.channel_data(peer_chan, b'ping2'))
     await s.until(lambda: bytes(csess.got).endswith(b'ping2'), 'echo2')
-    chan.close()
+    _app(chan.close, 'channel-close')
     await s.expect(M.MSG_CHANNEL_CLOSE, 'channel-close')
     s.send(M.channel_close(peer_chan))
     await s.pump()
-    conn.close()
+    _app(conn.close, 'disconnect')
     await s.until(lambda: s.ep_closed, 'disconnect')
 
 
-async def run_session(role, strict, phase=None, probes=(), glue=False):
+async def run_session(role, strict, phase=None, probes=(), glue=None, pos=None):
     """Run the scripted session with `probes` (payload byte strings) injected at `phase` (None = twin).
     Returns a transcript dict (JSON-able after canon())."""
     s = Sess(role, strict)
     s.glue = glue
+    if pos is not None:
+        s.mini.inject_pos = (pos, [bytes(p) for p in probes])
     final = ('completed',)
     try:
         await (script_vs_server if role == 'server' else script_vs_client)(s, phase, [bytes(p) for p in probes])
@@ -649,7 +708,7 @@ async def run_session(role, strict, phase=None, probes=(), glue=False):
         pass
     s.feed_mini()
     return {'role': role, 'strict': strict, 'phase': phase, 'final': final, 'rx': s.rx, 'ev': s.ev,
-            'reactions': s.reactions, 'mini_failed': s.mini_failed, 'negotiated_strict': s.mini.strict,
+            'reactions': s.reactions, 'steps': s.steps, 'own_count': s.mini.own_count, 'mini_failed': s.mini_failed, 'negotiated_strict': s.mini.strict,
             'kex_count': s.mini.kex_count}
 
 
@@ -660,32 +719,72 @@ def strip_seq(msgs):
     return [tuple(x for x in m if not (isinstance(x, tuple) and x and x[0] == 'seq')) for m in msgs]
 
 
+def _is_prefix(a, b):
+    return len(a) <= len(b) and list(a) == list(b[:len(a)])
+
+
+_END_EVENTS = ('lost', 'session_lost', 'connect', 'session_open_failed')
+
+
 def verdict(tr, twin):
-    """Handled | Unimplemented | Fatal | Ignored  (H U F I), plus a short reason for H."""
+    """Classify what the injected message(s) did, by observation from outside:
+       F  fatal: the endpoint ended the connection in direct reaction, nothing else visible happened
+       L  late fatal: no visible reaction (or only an UNIMPLEMENTED reply); the rest of the session is a
+          prefix of the untampered twin and then the endpoint ends the connection
+       U  answered with UNIMPLEMENTED carrying the probe's sequence number; rest of the session == twin
+       I  ignored: no reaction at all; rest of the session == twin
+       H  handled: anything else (a reply, an application-visible event, a different continuation, a hang)
+       X  the probe could not be delivered (machinery problem)
+    With several probes in one session each reaction is classified locally and the session gets F/L/H or
+    N (= every probe was answered by UNIMPLEMENTED or ignored and the rest == twin).
+    Returns (verdict, reason)."""
     if not tr['reactions']:
         return 'X', 'probe-not-delivered'
-    rc = tr['reactions'][0]
     rx_all, ev_all = strip_seq(tr['rx']), list(tr['ev'])
-    react_rx = strip_seq(rc['rx'])
-    rest_rx = rx_all[:rc['mark_rx']] + rx_all[rc['mark_rx'] + len(react_rx):]
-    rest_ev = ev_all[:rc['mark_ev']] + ev_all[rc['mark_ev'] + len(rc['ev']):]
-    visible = [m for m in react_rx if m[0] != M.MSG_IGNORE]
-    app = [e for e in rc['ev'] if e[0] not in ('lost', 'session_lost', 'connect')]
-    if rc['closed'] or rc['disconnect'] is not None:
-        others = [m for m in visible if m[0] != M.MSG_DISCONNECT]
-        if not others and not app:
-            return 'F', ''
-        return 'H', 'effect-then-close'
+    keep_rx, keep_ev = [True] * len(rx_all), [True] * len(ev_all)
+    local = []
+    for rc in tr['reactions']:
+        if rc.get('with_script_packet'):
+            return 'G', 'glued-with-script-packet'
+        react_rx = strip_seq(rc['rx'])
+        for i in range(rc['mark_rx'], rc['mark_rx'] + len(react_rx)):
+            keep_rx[i] = False
+        for i in range(rc['mark_ev'], rc['mark_ev'] + len(rc['ev'])):
+            keep_ev[i] = False
+        visible = [m for m in react_rx if m[0] != M.MSG_IGNORE]
+        app = [e for e in rc['ev'] if e[0] not in _END_EVENTS]
+        unimpl = (len(visible) == len(rc['seqs']) and
+                  all(v[0] == M.MSG_UNIMPLEMENTED and v[1] == struct.pack('>I', q) for v, q in zip(visible, rc['seqs'])))
+        if rc['closed'] or rc['disconnect'] is not None:
+            others = [m for m in visible if m[0] not in (M.MSG_DISCONNECT, M.MSG_UNIMPLEMENTED)]
+            local.append(('F', '') if not others and not app else ('H', 'effect-then-close'))
+        elif not visible and not app:
+            local.append(('I', ''))
+        elif unimpl and not app:
+            local.append(('U', ''))
+        else:
+            local.append(('H', 'reply' if visible and not unimpl else 'app-event'))
+    rest_rx = [m for m, k in zip(rx_all, keep_rx) if k]
+    rest_ev = [e for e, k in zip(ev_all, keep_ev) if k]
+    for v, why in local:
+        if v == 'H':
+            return 'H', why
+    if local[-1][0] == 'F':
+        return 'F', ''
     same = rest_rx == strip_seq(twin['rx']) and rest_ev == list(twin['ev']) and tr['final'] == twin['final']
-    if not visible and not app and same:
-        return 'I', ''
-    if (len(visible) == 1 and visible[0][0] == M.MSG_UNIMPLEMENTED and not app and same and
-            len(rc['seqs']) == 1 and visible[0][1] == struct.pack('>I', rc['seqs'][0])):
-        return 'U', ''
-    if visible or app:
-        return 'H', 'reply' if visible else 'app-event'
-    if tr['final'] != twin['final']:
-        return 'H', 'later:' + '/'.join(str(x) for x in tr['final'])
+    if same:
+        return (local[0][0] if len(local) == 1 else 'N'), ''
+    fin = tr['final']
+    if fin[0] == 'stopped' and fin[2] == 'closed':
+        trx = [m for m in rest_rx if m[0] not in (M.MSG_DISCONNECT, M.MSG_IGNORE)]
+        twx = [m for m in strip_seq(twin['rx']) if m[0] not in (M.MSG_DISCONNECT, M.MSG_IGNORE)]
+        tev = [e for e in rest_ev if e[0] not in _END_EVENTS]
+        twe = [e for e in twin['ev'] if e[0] not in _END_EVENTS]
+        if _is_prefix(trx, twx) and _is_prefix(tev, twe):
+            return 'L', fin[1]
+        return 'H', 'later-differs-then-close'
+    if fin != twin['final']:
+        return 'H', 'later:' + '/'.join(str(x) for x in fin)
     return 'H', 'later-differs'
 
 
@@ -701,6 +800,9 @@ def kexinit_payload(strict, role_of_sender):
 
 
 _X25519_PUB = bytes.fromhex('8520f0098930a754748b7ddcb43ef75a0dbf3a0d26381af4eba4a98eaa9b4e6a')     # RFC 7748 6.1
+
+
+_ED25519_PUB = bytes.fromhex('d75a980182b10ab7d54bfed3c964073a0ee172f3daa62325af021a68f707511a')
 
 
 def wf_body(t, to_role, strict=True):
@@ -725,7 +827,9 @@ def wf_body(t, to_role, strict=True):
     if t == 30:
         return S(_X25519_PUB)
     if t == 31:
-        return S(S('ssh-ed25519') + S(bytes(32))) + S(_X25519_PUB) + S(S('ssh-ed25519') + S(bytes(64)))
+        # a real Ed25519 public key (RFC 8032 7.1 test 1) with a signature that cannot verify; an all-zero
+        # key would be a small-order point for which OpenSSL accepts the all-zero signature one time in four
+        return S(S('ssh-ed25519') + S(_ED25519_PUB)) + S(_X25519_PUB) + S(S('ssh-ed25519') + S(bytes(64)))
     if t == 50:
         return S('mallory') + S('ssh-connection') + S('password') + b'\0' + S(PASSWORDS['mallory'])
     if t == 51:
@@ -804,7 +908,7 @@ async def _batch(jobs):
         if key not in twins:
             twins[key] = await run_session(role, strict)
         probes = [bytes.fromhex(p) for p in job['probes']]
-        tr = await run_session(role, strict, phase, probes, glue=job.get('glue', False))
+        tr = await run_session(role, strict, phase, probes, glue=job.get('glue'), pos=job.get('pos'))
         v, why = verdict(tr, twins[key])
         res = {'job': job, 'verdict': v, 'why': why, 'final': list(tr['final']),
                'twin_final': list(twins[key]['final'])}
@@ -823,4 +927,129 @@ async def _batch(jobs):
 
 
 def run_batch(jobs):
-    return asyncio.run(_batch(jobs))
+    """All sessions of one process run on one event loop (the reusable server factory and the prebuilt client
+    options are bound to it)."""
+    loop = _ENV.get('loop')
+    if loop is None or loop.is_closed():
+        for k in ('acceptor', 'acc_sess', 'cli_options'):
+            _ENV.pop(k, None)
+        loop = _ENV['loop'] = asyncio.new_event_loop()
+    asyncio.set_event_loop(loop)
+    return loop.run_until_complete(_batch(jobs))
+
+
+# ---------------------------------------------------------------------------------------------------
+# the verdict table
+
+def table_jobs(types):
+    """One job per distinct payload of (role, strict, phase, type, variant)."""
+    jobs = []
+    for role in ROLES:
+        for strict in (True, False):
+            for t in types:
+                vs = variants(t, role, strict)
+                for ph in PHASES:
+                    for name, p in vs.items():
+                        jobs.append({'role': role, 'strict': strict, 'phase': ph, 't': t, 'variant': name,
+                                     'probes': [p.hex()]})
+    return jobs
+
+
+def run_jobs(jobs, repo, workers=None, chunk=150):
+    """Shard jobs over worker processes. Returns (results in job order, loop errors)."""
+    import multiprocessing
+    workers = workers or max(2, min(12, (os.cpu_count() or 4) - 2))
+    if len(jobs) <= chunk:
+        worker_init(repo)
+        return run_batch(jobs)
+    # interleave so that every shard holds a mix of cheap and expensive sessions
+    shards = [jobs[i::max(1, (len(jobs) + chunk - 1) // chunk)] for i in range(max(1, (len(jobs) + chunk - 1) // chunk))]
+    ctx = multiprocessing.get_context('fork')
+    res_by_id, errs = {}, []
+    with concurrent.futures.ProcessPoolExecutor(max_workers=workers, mp_context=ctx, initializer=worker_init,
+                                                initargs=(repo,)) as ex:
+        for out, e in ex.map(run_batch, shards):
+            errs += e
+            for r in out:
+                res_by_id[id_of(r['job'])] = r
+    return [res_by_id[id_of(j)] for j in jobs], errs
+
+
+def id_of(job):
+    return (job['role'], job['strict'], job['phase'], job.get('t'), job.get('variant'), tuple(job['probes']),
+            job.get('glue'), job.get('pos'))
+
+
+# ---------------------------------------------------------------------------------------------------
+# abstraction of packets into the model's events (Model/Transport.v)
+
+def classify(payload, to_role, genuine):
+    """(type, cls) of a packet delivered to an endpoint of role to_role; genuine = built by MiniSSH's own
+    protocol engine (so key exchange messages are cryptographically valid).  None payload = version line."""
+    if payload is None:
+        return -1, 0
+    t = payload[0] if payload else 0
+    cls = 0
+    try:
+        r = M.Reader(payload, 1)
+        if t == 20:
+            r._take(16)
+            kex = r.get_namelist()
+            cls = 1 if (M.STRICT_C if to_role == 'server' else M.STRICT_S) in kex else 0
+        elif t == 30:
+            cls = 0 if len(r.get_string()) == 32 else 1
+        elif t == 31:
+            cls = 0 if genuine else 1
+        elif t in (5, 6):
+            cls = 0 if r.get_string() == b'ssh-userauth' else 1
+        elif t == 50:
+            user, service, method = r.get_string(), r.get_string(), r.get_string()
+            u = {b'alice': 1, b'mallory': 2}.get(user, 3)
+            if service != b'ssh-connection':
+                cls = -1
+            elif method == b'none':
+                cls = 100 * u
+            elif method == b'password':
+                r.get_bool()
+                pw = r.get_string()
+                cls = 100 * u + 10 + {PASSWORDS['alice'].encode(): 1, PASSWORDS['mallory'].encode(): 2}.get(pw, 0)
+            else:
+                cls = 100 * u + 20
+        elif t == 51:
+            cls = 0 if b'password' in r.get_namelist() else 1
+    except M.MiniSSHError:
+        cls = 0
+    return t, cls
+
+
+def coq_steps(tr, mal_probes=False):
+    """The steps of a transcript as a Coq literal of type list ostep."""
+    to_role = tr['role']
+    out = []
+    for st in tr['steps']:
+        chunk = []
+        for c in st['chunk']:
+            t, cls = classify(c['payload'], to_role, not c['probe'])
+            chunk.append('(%s,%s,%s)' % (_cz(t), _cz(cls), 'true' if (c['probe'] and mal_probes) else 'false'))
+        obs = []
+        for (t, a, q) in st['outs']:
+            if t == 'mini_failed':
+                continue
+            obs.append('(%d,%d,%d)' % (t, a, q))
+        out.append('([%s],[%s],%s)' % (';'.join(chunk), ';'.join(obs), 'true' if st['closed'] else 'false'))
+    return '[' + ';'.join(out) + ']'
+
+
+def coq_chunks(steps, to_role):
+    out = []
+    for st in steps:
+        chunk = []
+        for c in st['chunk']:
+            t, cls = classify(c['payload'], to_role, not c['probe'])
+            chunk.append('(%s,%s,false)' % (_cz(t), _cz(cls)))
+        out.append('[' + ';'.join(chunk) + ']')
+    return '[' + ';'.join(out) + ']'
+
+
+def _cz(n):
+    return '(%d)' % n if n < 0 else str(n)
